@@ -96,3 +96,46 @@ Theorem C14_shared_data_example :
   /\ shared_candidates [([47; 115], [47; 119])] [47; 115; 120; 47; 98] = [].
 Proof. exact shared_example. Qed.
 Print Assumptions C14_shared_data_example.
+
+(* secure_filename with os.name as an input.  On Windows (nt = true: backslash and slash are the
+   separators, the device-name branch is live) the result is never a device name -- its part
+   before the first dot, upper-cased, is not CON, PRN, AUX, NUL, COM0-9, LPT0-9 (table regenerated
+   from the source) -- and it is still over the allowed alphabet without separator, blank or NUL *)
+Theorem C14_filename_windows : forall (nfkd : str -> str) s,
+  let r := secure_filename_os nfkd true s in
+  is_device r = false /\ forallb allowed_char r = true /\ forallb no_sep_blank_nul r = true.
+Proof. exact filename_windows. Qed.
+Print Assumptions C14_filename_windows.
+
+(* with nt = false it is the function of C14_filename *)
+Theorem C14_filename_posix_branch : forall s, secure_core_os false s = secure_core s.
+Proof. exact secure_core_os_posix. Qed.
+Print Assumptions C14_filename_posix_branch.
+
+Theorem C14_filename_windows_example :
+  secure_core_os true [99; 111; 110; 46; 116; 120; 116] = [95; 99; 111; 110; 46; 116; 120; 116]
+  /\ secure_core_os true [97; 92; 98] = [97; 95; 98]
+  /\ secure_core_os false [97; 92; 98] = [97; 98].
+Proof. exact filename_windows_example. Qed.
+Print Assumptions C14_filename_windows_example.
+
+(* SharedDataMiddleware over every kind of export, for any file system / resource reader
+   (available is a section variable): what is served belongs to one export; a single-file export
+   serves exactly the exported file (whatever follows its key); a directory export as in
+   C14_shared_data; a package export only on a prefix match, the resource name is
+   safe_join package_path rest and lies inside package_path *)
+Theorem C14_shared_data_all_exports : forall (available : ckind -> str -> bool) exports path k f,
+  shared_lookup_all available exports path = Some (k, f) ->
+  exists sp e, In (sp, e) exports /\
+    match e with
+    | EFile g => k = KFixed /\ f = g /\ (sp = path \/ exists rest, path = export_prefix sp ++ rest)
+    | EDir d => k = KIsFile /\ available KIsFile f = true /\
+                ((sp = path /\ f = d)
+                 \/ exists rest, path = export_prefix sp ++ rest /\ safe_join d [rest] = Some f
+                                 /\ inside (normpath (base_dir d)) (normpath f) = true)
+    | EPkg pp => k = KResource /\ available KResource f = true /\
+                 exists rest, path = export_prefix sp ++ rest /\ safe_join pp [rest] = Some f
+                              /\ inside (normpath (base_dir pp)) (normpath f) = true
+    end.
+Proof. exact shared_lookup_all_contained. Qed.
+Print Assumptions C14_shared_data_all_exports.
